@@ -29,6 +29,7 @@ type RunSpec struct {
 	Bound     string            `json:"bound"`
 	Tries     int               `json:"replay_tries"`
 	Workers   int               `json:"workers"`
+	MaxWallS  int               `json:"max_wall_s"`
 }
 
 type PropSpec struct {
@@ -362,7 +363,14 @@ func checkMain(args []string) {
 			pl = newPool(&loadSpec{Dir: dir, Pkg: ls.Pkg, Files: allFiles[ls.Pkg]})
 			pools[pkey] = pl
 		}
-		res := explore(pl, ls, exploreOpts{Workers: workers, Samples: 3, MaxViol: 4, Verbose: verbose})
+		maxWall := 1500 * time.Second
+		if tier == "thorough" {
+			maxWall = 3 * time.Hour
+		}
+		if rs.MaxWallS > 0 {
+			maxWall = time.Duration(rs.MaxWallS) * time.Second
+		}
+		res := explore(pl, ls, exploreOpts{Workers: workers, Samples: 3, MaxViol: 4, Verbose: verbose, MaxWall: maxWall})
 		outs = append(outs, runOut{rs, res})
 		fmt.Printf("run %s/%s: paths=%d pruned=%d aborted=%d decisions=%d queries=%d (sat %d unsat %d unknown %d) asserts=%d solver=%.1fs wall=%.1fs violating_paths=%d\n",
 			id, rs.Name, res.Paths, res.Pruned, res.Aborted, res.Decisions, res.Queries, res.Sat, res.Unsat, res.Unknown, res.Asserts, res.SolverS, res.WallS, res.ViolPaths)
